@@ -212,6 +212,7 @@ def runModel (line : String) : String :=
     | "compare" => fmtBool (p.compare (parseStr (arg 5)) (parseStr (arg 6)))
     | _ => "PROTOCOL-ERROR"
   | "stabilize" => stabilizeOp (arg 1) (arg 2) (arg 3)
+  | "longspace" => "ok"   -- decided inside the harness against a straightforward reference (see harness/src/ops.rs)
   | "cmp" => cmpOps (parseEntry (arg 1)) (arg 2).toNat!
   | "composed" =>
     (match arg 1, arg 2 with
